@@ -439,3 +439,219 @@ Proof.
   split; [apply Nat.lt_0_succ|]. split; [discriminate|]. split; [discriminate|].
   split; [vm_compute; reflexivity|]. split; vm_compute; reflexivity.
 Qed.
+
+(* ======================================================================================================
+   SECOND SOURCE TIE (notes/C03_tie_report.md, "Second tie"): `hard_optimal_completion_distillation_loss`.
+   PV.Gen.C03BSrc.{loss_body, loss_checks, loss_call, loss_ce, loss_red} are regenerated from /repo on every C03 run; the torch calls
+   mean what PV.MiniTorch.OpsC03B (+ OpsC03 / OpsC01 / OpsC07) say (PV.C03.SrcRunB.ext03B); the call of `optimal_completion` is the
+   interpretation of the FIRST tie's term Gen.C03Src.oc_body (c03_source_optimal_completion_is_model is used for it).
+   [lsm : list fx -> list Q] is the log-softmax ORACLE (one row of logits -> its log-probabilities; regime T): every theorem holds for
+   EVERY such function.  [lg]: the logits as handed over, nested lists in hyp's layout plus the class axis ([wf_logits]: N x H x V
+   when batch_first, else H x N x V); [w]: the class weights or None; costs c / s as in the first tie; [c_pad c] is ignore_index,
+   [c_excl c] is not read (the function forces exclude_last).  [run_loss lsm prog s c w red ..]: Interp.run of prog on the thirteen
+   arguments.  A float the source returns is [Fq (Qred q)] for the model's rational q ([TieBModel.loss_tensor]: the model adds and
+   divides without reducing fractions; Qred q == q).  Hypotheses of the tie: the matrices are matrices, N > 0, R > 0, H > 0 (an
+   empty hypothesis with the forced exclude_last is the excluded case of the property: the source raises there), the weight vector
+   has V entries, [eos_ok]: a counted eos is a class index other than ignore_index (the function's own guards: otherwise it raises
+   RuntimeError - theorems below), and [targets_ok]: every listed target is ignore_index or a class index (torch's cross_entropy
+   raises IndexError otherwise; the model has no such error) - which follows from "every counted reference token is a class index"
+   (c03_source_loss_targets_are_classes), the input space of the loss.
+   ====================================================================================================== *)
+From PV Require MiniTorch.OpsC01 MiniTorch.OpsC03B Gen.C03BSrc C03.SrcRunB C03.TieB C03.TieBModel C03.TieBWhole C03.TieBSpec.
+
+(* THE WHOLE BODY of hard_optimal_completion_distillation_loss as one term: the checks, the call, unsqueeze / expand / contiguous /
+   flatten, cross_entropy(reduction="none", weight, ignore_index), view_as, masked_fill, sum(2), the division by the clamped number of
+   targets, and the reduction, RETURN the float tensor of Model.hard_ocd_loss on the oracle's log-probabilities: shape (N, H) / (H, N)
+   for 'none', a 0-d tensor for 'sum' / 'mean'.  Every batch, layout, eos setting, cost triple, weight, ignore_index, logits. *)
+Theorem c03_source_loss_is_model :
+  forall (lsm : list MiniTorch.OpsC01.fx -> list Q) (s : positive) (c : cfg) (w : option (list Q)) (red : reduction)
+         (N R' H V : nat) (ref hyp : list (list Z)) (lg : list (list (list MiniTorch.OpsC01.fx))) (warn : bool),
+  (0 < N)%nat -> C01.Tie.wf_src (c_bf c) N (S R') ref -> C01.Tie.wf_src (c_bf c) N H hyp -> H <> 0%nat ->
+  C03.TieBWhole.wf_logits (c_bf c) N H V lg -> C03.TieBWhole.weight_ok w V -> C03.TieBWhole.eos_ok c V ->
+  C03.TieBWhole.targets_ok c N V ref hyp ->
+  exists st', C03.TieBWhole.run_loss lsm Gen.C03BSrc.loss_body s c w (C03.SrcRunB.red_str red) N V ref hyp lg warn
+              = MiniPy.Interp.Ok (MiniTorch.OpsC01.enc_x (C03.TieBModel.loss_tensor (C03.TieBWhole.grid_shape (c_bf c) N H)
+                                    (hard_ocd_loss c w red N ref hyp (map (map lsm) lg)))) st'.
+Proof. exact C03.TieBWhole.loss_body_is_model. Qed.
+Print Assumptions c03_source_loss_is_model.
+
+(* the same for the four blocks loss_checks; loss_call; loss_ce; loss_red run in sequence *)
+Theorem c03_source_loss_blocks_is_model :
+  forall (lsm : list MiniTorch.OpsC01.fx -> list Q) (s : positive) (c : cfg) (w : option (list Q)) (red : reduction)
+         (N R' H V : nat) (ref hyp : list (list Z)) (lg : list (list (list MiniTorch.OpsC01.fx))) (warn : bool),
+  (0 < N)%nat -> C01.Tie.wf_src (c_bf c) N (S R') ref -> C01.Tie.wf_src (c_bf c) N H hyp -> H <> 0%nat ->
+  C03.TieBWhole.wf_logits (c_bf c) N H V lg -> C03.TieBWhole.weight_ok w V -> C03.TieBWhole.eos_ok c V ->
+  C03.TieBWhole.targets_ok c N V ref hyp ->
+  exists st', C03.TieBWhole.run_loss lsm C03.SrcRunB.loss_blocks s c w (C03.SrcRunB.red_str red) N V ref hyp lg warn
+              = MiniPy.Interp.Ok (MiniTorch.OpsC01.enc_x (C03.TieBModel.loss_tensor (C03.TieBWhole.grid_shape (c_bf c) N H)
+                                    (hard_ocd_loss c w red N ref hyp (map (map lsm) lg)))) st'.
+Proof. exact C03.TieBWhole.loss_blocks_is_model. Qed.
+Print Assumptions c03_source_loss_blocks_is_model.
+
+(* the blocks loss_ce; loss_red alone, on ANY (A x B x C) tensor of targets [tf] and (A x B x V) logits [lgv a b = the vector at (a, b)]:
+   Model.hard_ocd_loss as a function of the targets (TieBModel.loss_of; [TieBModel.hard_ocd_loss_of]) - independent of
+   optimal_completion.  A, B > 0; every target ignore_index or a class index *)
+Theorem c03_source_loss_core_is_model :
+  forall (lsm : list MiniTorch.OpsC01.fx -> list Q) (A B C V : nat) (lgv : nat -> nat -> list MiniTorch.OpsC01.fx)
+         (tf : nat -> nat -> nat -> Z) (w : option (list Q)) (ign : Z),
+  (forall a b, (a < A)%nat -> (b < B)%nat -> length (lgv a b) = V) ->
+  match w with Some wv => length wv = V | None => True end ->
+  (forall a b k, (a < A)%nat -> (b < B)%nat -> (k < C)%nat -> MiniTorch.OpsC03B.class_ok ign V (tf a b k) = true) ->
+  (0 < A)%nat -> (0 < B)%nat ->
+  forall (bf : bool) (red : reduction) st,
+  C03.TieLib.known3 st (C03.TieB.ce_stage0 A B C V (C03.TieBModel.lfn lgv) tf w ign (MiniPy.Syntax.VBool bf)
+                          (MiniPy.Syntax.VStr (C03.SrcRunB.red_str red))) ->
+  C03.TieLib.returns3
+    (MiniTorch.OpsC01.enc_x (C03.TieBModel.loss_tensor [A; B]
+       (C03.TieBModel.loss_of ign w red bf (if bf then A else B)
+          (C03.TieBModel.nest2 A B (fun a b => lsm (lgv a b))) (C03.TieBModel.nest2 A B (C03.TieBModel.orow C tf)))))
+    (MiniPy.Interp.exec (C03.SrcRunB.ext03B lsm) (MiniPy.Syntax.SSeq Gen.C03BSrc.loss_ce Gen.C03BSrc.loss_red) st).
+Proof. exact C03.TieBWhole.core_run. Qed.
+Print Assumptions c03_source_loss_core_is_model.
+
+(* the executable the harness evaluates on the loss cases of every run IS that run (for the oracle it is given) *)
+Theorem c03_source_src_loss_is_model :
+  forall (lsm : list MiniTorch.OpsC01.fx -> list Q) (c : cfg) (w : option (list Q)) (red : reduction) (scale : Z)
+         (N R' H V : nat) (ref hyp : list (list Z)) (lg : list (list (list MiniTorch.OpsC01.fx))),
+  (0 < N)%nat -> C01.Tie.wf_src (c_bf c) N (S R') ref -> C01.Tie.wf_src (c_bf c) N H hyp -> H <> 0%nat ->
+  C03.TieBWhole.wf_logits (c_bf c) N H V lg -> C03.TieBWhole.weight_ok w V -> C03.TieBWhole.eos_ok c V ->
+  C03.TieBWhole.targets_ok c N V ref hyp ->
+  C03.SrcRunB.src_loss lsm Gen.C03BSrc.loss_body c w (C03.SrcRunB.red_str red) scale N V ref hyp lg
+  = Some (Some (C03.TieBModel.loss_tensor (C03.TieBWhole.grid_shape (c_bf c) N H) (hard_ocd_loss c w red N ref hyp (map (map lsm) lg)))).
+Proof. exact C03.TieBWhole.src_loss_is_model. Qed.
+Print Assumptions c03_source_src_loss_is_model.
+
+(* the hypothesis [targets_ok] follows from the input space of the loss: every counted reference token is a class index *)
+Theorem c03_source_loss_targets_are_classes : forall c N R' H V ref hyp, (0 < N)%nat ->
+  C01.Tie.wf_src (c_bf c) N (S R') ref -> C01.Tie.wf_src (c_bf c) N H hyp ->
+  C03.TieBSpec.ref_classes c N V ref -> C03.TieBWhole.targets_ok c N V ref hyp.
+Proof. exact C03.TieBSpec.targets_ok_of_ref. Qed.
+Print Assumptions c03_source_loss_targets_are_classes.
+
+(* THE RAISE PATHS of the function's own guards (the model has none: they delimit the tie's hypotheses).  include_eos with an eos
+   that is not a class index *)
+Theorem c03_source_loss_raises_eos_not_a_class :
+  forall (lsm : list MiniTorch.OpsC01.fx -> list Q) (s : positive) (c : cfg) (w : option (list Q)) (red : String.string)
+         (N H V : nat) (ref hyp : list (list Z)) (lg : list (list (list MiniTorch.OpsC01.fx))) (warn : bool),
+  (0 < N)%nat -> C01.Tie.wf_src (c_bf c) N H hyp -> C03.TieBWhole.wf_logits (c_bf c) N H V lg ->
+  forall e, c_incl c = true -> c_eos c = Some e -> (e < 0 \/ Z.of_nat V <= e) ->
+  exists st', C03.TieBWhole.run_loss lsm Gen.C03BSrc.loss_body s c w red N V ref hyp lg warn = MiniPy.Interp.Exc C01.SrcRun.runtime_error st'.
+Proof. exact C03.TieBWhole.loss_raises_eos_not_a_class. Qed.
+Print Assumptions c03_source_loss_raises_eos_not_a_class.
+
+(* include_eos with eos = ignore_index *)
+Theorem c03_source_loss_raises_eos_is_ignore_index :
+  forall (lsm : list MiniTorch.OpsC01.fx -> list Q) (s : positive) (c : cfg) (w : option (list Q)) (red : String.string)
+         (N H V : nat) (ref hyp : list (list Z)) (lg : list (list (list MiniTorch.OpsC01.fx))) (warn : bool),
+  (0 < N)%nat -> C01.Tie.wf_src (c_bf c) N H hyp -> C03.TieBWhole.wf_logits (c_bf c) N H V lg ->
+  forall e, c_incl c = true -> c_eos c = Some e -> (0 <= e < Z.of_nat V) -> e = c_pad c ->
+  exists st', C03.TieBWhole.run_loss lsm Gen.C03BSrc.loss_body s c w red N V ref hyp lg warn = MiniPy.Interp.Exc C01.SrcRun.runtime_error st'.
+Proof. exact C03.TieBWhole.loss_raises_eos_is_ignore_index. Qed.
+Print Assumptions c03_source_loss_raises_eos_is_ignore_index.
+
+(* a reduction other than 'mean' / 'sum' / 'none': everything is computed, then RuntimeError *)
+Theorem c03_source_loss_raises_bad_reduction :
+  forall (lsm : list MiniTorch.OpsC01.fx -> list Q) (s : positive) (c : cfg) (w : option (list Q)) (red : String.string)
+         (N R' H V : nat) (ref hyp : list (list Z)) (lg : list (list (list MiniTorch.OpsC01.fx))) (warn : bool),
+  (0 < N)%nat -> C01.Tie.wf_src (c_bf c) N (S R') ref -> C01.Tie.wf_src (c_bf c) N H hyp -> H <> 0%nat ->
+  C03.TieBWhole.wf_logits (c_bf c) N H V lg -> C03.TieBWhole.weight_ok w V -> C03.TieBWhole.eos_ok c V ->
+  C03.TieBWhole.targets_ok c N V ref hyp ->
+  red <> (C03.SrcRunB.red_str RMean) -> red <> (C03.SrcRunB.red_str RSum) -> red <> (C03.SrcRunB.red_str RNone) ->
+  exists st', C03.TieBWhole.run_loss lsm Gen.C03BSrc.loss_body s c w red N V ref hyp lg warn = MiniPy.Interp.Exc C01.SrcRun.runtime_error st'.
+Proof. exact C03.TieBWhole.loss_raises_bad_reduction. Qed.
+Print Assumptions c03_source_loss_raises_bad_reduction.
+
+(* composed with c03_hard_ocd_loss_formula and c03_hard_ocd_loss_past_end_zero - THE PROPERTY, last sentence, about the interpreted
+   source alone: with reduction 'none' the source returns a float tensor of shape (N, H) / (H, N) whose entry for prefix k of pair n
+   (offset n * H + k when batch_first, else k * N + n) is, for k below the length of the cut hypothesis, the MEAN over the set L of
+   distance-preserving next tokens (listed once each) of -log p(t) (x weight(t)), p = the oracle's log-softmax of the logits at
+   (k, n) - 0 when L is empty ([qmean f [] = 0]) - and exactly 0 at the steps past the end of the hypothesis.  Positive costs;
+   ignore_index not a counted reference token; every counted reference token a class index. *)
+Theorem c03_source_loss_none_is_mean_neg_log_prob :
+  forall (lsm : list MiniTorch.OpsC01.fx -> list Q) (s : positive) (c : cfg) (w : option (list Q)) (N R' H V : nat)
+         (ref hyp : list (list Z)) (lg : list (list (list MiniTorch.OpsC01.fx))) (warn : bool),
+  (0 < N)%nat -> C01.Tie.wf_src (c_bf c) N (S R') ref -> C01.Tie.wf_src (c_bf c) N H hyp -> H <> 0%nat ->
+  C03.TieBWhole.wf_logits (c_bf c) N H V lg -> C03.TieBWhole.weight_ok w V -> C03.TieBWhole.eos_ok c V ->
+  C03.TieBSpec.ref_classes c N V ref ->
+  0 < c_ins c -> 0 < c_del c -> 0 < c_sub c ->
+  exists (data : list MiniTorch.OpsC01.fx) st',
+    C03.TieBWhole.run_loss lsm Gen.C03BSrc.loss_body s c w (C03.SrcRunB.red_str RNone) N V ref hyp lg warn
+      = MiniPy.Interp.Ok (MiniTorch.OpsC01.enc_x (MiniTorch.OpsC07.mkTn (C03.TieBWhole.grid_shape (c_bf c) N H) data)) st' /\
+    length data = (N * H)%nat /\
+    forall n k, (n < N)%nat -> (k < H)%nat ->
+      let rseq := denote (c_eos c) (c_incl c) (seq_of (c_bf c) n ref) in
+      let hseq := denote (c_eos c) (c_incl c) (seq_of (c_bf c) n hyp) in
+      let lp := lsm (if c_bf c then C03.TieBWhole.lgv_of lg n k else C03.TieBWhole.lgv_of lg k n) in
+      ((k < length hseq)%nat -> ~ In (c_pad c) rseq ->
+         exists (L : list Z) (q : Q),
+           NoDup L /\
+           (forall t, In t L <-> preserving (c_ins c) (c_del c) (c_sub c) rseq (firstn k hseq) t) /\
+           nth (C03.TieBSpec.src_idx (c_bf c) N H k n) data MiniTorch.OpsC01.FNaN = MiniTorch.OpsC01.Fq q /\
+           (q == qmean (nll w lp) L)%Q) /\
+      ((1 <= k)%nat -> (length hseq <= k)%nat ->
+         nth (C03.TieBSpec.src_idx (c_bf c) N H k n) data MiniTorch.OpsC01.FNaN = MiniTorch.OpsC01.Fq 0).
+Proof. exact C03.TieBSpec.loss_source_none_formula. Qed.
+Print Assumptions c03_source_loss_none_is_mean_neg_log_prob.
+
+(* composed with c03_hard_ocd_loss_sum / _mean - "reduced as requested": 'sum' returns the sum of that grid, 'mean' the batch mean of
+   each sequence's sum over time divided by its number of steps that have a target (at least 1) - both layouts *)
+Theorem c03_source_loss_sum_mean_are_reductions :
+  forall (lsm : list MiniTorch.OpsC01.fx -> list Q) (s : positive) (c : cfg) (w : option (list Q)) (N R' H V : nat)
+         (ref hyp : list (list Z)) (lg : list (list (list MiniTorch.OpsC01.fx))) (warn : bool),
+  (0 < N)%nat -> C01.Tie.wf_src (c_bf c) N (S R') ref -> C01.Tie.wf_src (c_bf c) N H hyp -> H <> 0%nat ->
+  C03.TieBWhole.wf_logits (c_bf c) N H V lg -> C03.TieBWhole.weight_ok w V -> C03.TieBWhole.eos_ok c V ->
+  C03.TieBSpec.ref_classes c N V ref ->
+  (exists (q : Q) st',
+     C03.TieBWhole.run_loss lsm Gen.C03BSrc.loss_body s c w (C03.SrcRunB.red_str RSum) N V ref hyp lg warn
+       = MiniPy.Interp.Ok (MiniTorch.OpsC01.enc_x (MiniTorch.OpsC07.mkTn [] [MiniTorch.OpsC01.Fq q])) st' /\
+     (q == qsum (map qsum (loss_grid c w N ref hyp (map (map lsm) lg))))%Q) /\
+  (exists (q : Q) st',
+     C03.TieBWhole.run_loss lsm Gen.C03BSrc.loss_body s c w (C03.SrcRunB.red_str RMean) N V ref hyp lg warn
+       = MiniPy.Interp.Ok (MiniTorch.OpsC01.enc_x (MiniTorch.OpsC07.mkTn [] [MiniTorch.OpsC01.Fq q])) st' /\
+     (q == qsum (map (seq_mean c w N ref hyp (map (map lsm) lg)) (seq 0 N)) / inject_Z (Z.of_nat N))%Q).
+Proof. exact C03.TieBSpec.loss_source_sum_mean. Qed.
+Print Assumptions c03_source_loss_sum_mean_are_reductions.
+
+(* non-vacuity: the ragged batch of c03_nonvacuous (batch-first, eos = 0 counted, repeated reference token, costs 3/2, 1/2, 1,
+   ignore_index -1) with V = 6 classes, logits (n + 2 k + v) / 4, class weights (1, 1/2, 2, 1, 1, 3) and the oracle "logit - 3" meets
+   every hypothesis of the theorems above; the interpreted source returns the model's tensor: the (2, 3) grid 11/8, 4, 5/2 | 2, 9/4, 0
+   (e.g. step 2 of pair 0 lists {0, 2}: (2 * 1 + 3/2 * 2) / 2 = 5/2; step 2 of pair 1 is past the end), its sum 97/8, the mean 19/8
+   = ((11/8 + 4 + 5/2) / 3 + (2 + 9/4) / 2) / 2, and RuntimeError for reduction "max" *)
+Definition c03_ex_lsm (row : list MiniTorch.OpsC01.fx) : list Q :=
+  map (fun x => match x with MiniTorch.OpsC01.Fq q => Qred (q - 3) | _ => 0%Q end) row.
+Definition c03_ex_logits : list (list (list MiniTorch.OpsC01.fx)) :=
+  map (fun n => map (fun k => map (fun v => MiniTorch.OpsC01.Fq (Qred (inject_Z (Z.of_nat (n + 2 * k + v)) / 4))) (seq 0 6)) (seq 0 3)) (seq 0 2).
+Definition c03_ex_weight : option (list Q) := Some [1; 1 # 2; 2; 1; 1; 3]%Q.
+
+Example c03_source_loss_nonvacuous :
+  C01.Tie.wf_src (c_bf ex_cfg_rag) 2 4 ex_ref_rag /\ C01.Tie.wf_src (c_bf ex_cfg_rag) 2 3 ex_hyp_rag /\ (0 < 2)%nat /\ 3%nat <> 0%nat /\
+  C03.TieBWhole.wf_logits (c_bf ex_cfg_rag) 2 3 6 c03_ex_logits /\ C03.TieBWhole.weight_ok c03_ex_weight 6 /\
+  C03.TieBWhole.eos_ok ex_cfg_rag 6 /\ C03.TieBSpec.ref_classes ex_cfg_rag 2 6 ex_ref_rag /\
+  0 < c_ins ex_cfg_rag /\ 0 < c_del ex_cfg_rag /\ 0 < c_sub ex_cfg_rag /\
+  C03.SrcRunB.src_loss c03_ex_lsm Gen.C03BSrc.loss_body ex_cfg_rag c03_ex_weight (C03.SrcRunB.red_str RNone) 4 2 6 ex_ref_rag ex_hyp_rag c03_ex_logits
+    = Some (Some (C03.TieBModel.loss_tensor [2; 3]%nat
+                    (hard_ocd_loss ex_cfg_rag c03_ex_weight RNone 2 ex_ref_rag ex_hyp_rag (map (map c03_ex_lsm) c03_ex_logits)))) /\
+  C03.SrcRunB.src_loss c03_ex_lsm C03.SrcRunB.loss_blocks ex_cfg_rag c03_ex_weight (C03.SrcRunB.red_str RNone) 4 2 6 ex_ref_rag ex_hyp_rag c03_ex_logits
+    = Some (Some (MiniTorch.OpsC07.mkTn [2; 3]%nat
+                    (map MiniTorch.OpsC01.Fq [11 # 8; 4; 5 # 2; 2; 9 # 4; 0]%Q))) /\
+  C03.SrcRunB.src_loss c03_ex_lsm Gen.C03BSrc.loss_body ex_cfg_rag c03_ex_weight (C03.SrcRunB.red_str RSum) 4 2 6 ex_ref_rag ex_hyp_rag c03_ex_logits
+    = Some (Some (MiniTorch.OpsC07.mkTn [] [MiniTorch.OpsC01.Fq (97 # 8)])) /\
+  C03.SrcRunB.src_loss c03_ex_lsm Gen.C03BSrc.loss_body ex_cfg_rag c03_ex_weight (C03.SrcRunB.red_str RMean) 4 2 6 ex_ref_rag ex_hyp_rag c03_ex_logits
+    = Some (Some (MiniTorch.OpsC07.mkTn [] [MiniTorch.OpsC01.Fq (19 # 8)])) /\
+  C03.SrcRunB.src_loss c03_ex_lsm Gen.C03BSrc.loss_body ex_cfg_rag c03_ex_weight C03.TieBSpec.ex_bad_reduction 4 2 6 ex_ref_rag ex_hyp_rag c03_ex_logits
+    = Some None.
+Proof.
+  split; [split; [reflexivity|intros row [<-|[<-|[]]]; reflexivity]|].
+  split; [split; [reflexivity|intros row [<-|[<-|[]]]; reflexivity]|].
+  split; [apply Nat.lt_0_succ|]. split; [discriminate|].
+  split.
+  { split; [reflexivity|]. intros row [<-|[<-|[]]]; (split; [reflexivity|]); intros v [<-|[<-|[<-|[]]]]; reflexivity. }
+  split; [reflexivity|].
+  split; [intros _ e He; injection He as <-; split; [split; [apply Z.le_refl|reflexivity]|discriminate]|].
+  split.
+  { intros n Hn t Hin. destruct n as [|[|n]]; [| |exfalso; apply (Nat.lt_irrefl 2); apply (Nat.le_lt_trans _ (S (S n))); [apply le_n_S, le_n_S, Nat.le_0_l|exact Hn]];
+      vm_compute in Hin; left; repeat (destruct Hin as [<-|Hin]; [split; [discriminate|reflexivity]|]); destruct Hin. }
+  split; [reflexivity|]. split; [reflexivity|]. split; [reflexivity|].
+  split; [vm_compute; reflexivity|]. split; [vm_compute; reflexivity|]. split; [vm_compute; reflexivity|].
+  split; vm_compute; reflexivity.
+Qed.
